@@ -164,7 +164,7 @@ func checkC06(res *Result) {
 				}
 				// mismatch ⇒ failure
 				// the comparison decides an If one of whose edges leads to a failure return
-				tot, why := totalLoop(loopBlocks(cmp.Block()), failureReturnPred(ff))
+				tot, why := totalLoopFF(ff, loopBlocks(cmp.Block()))
 				res.check(tot, "C06-R2", fname(fn), p.pos(cmp), "every object is compared (the loop is left early only by failing)", why)
 				okFail := false
 				for _, r := range returnsIn(fn) {
@@ -306,11 +306,11 @@ func checkC06(res *Result) {
 			res.check(fromUndoActors && !mapFromFetched && keyFromFetched && !keyFromUndo, "C06-R4", fname(fn), p.pos(l),
 				"each actor of the fetched object is looked up in the set of the Undo's own actors (not the reverse)",
 				fmt.Sprintf("set built from Undo actors: %v; set built from fetched data: %v; key from fetched object: %v; key from Undo actors: %v", fromUndoActors, mapFromFetched, keyFromFetched, keyFromUndo))
-			tot, why := totalLoop(loopBlocks(l.Block()), failureReturnPred(ff))
+			tot, why := totalLoopFF(ff, loopBlocks(l.Block()))
 			res.check(tot, "C06-R4", fname(fn), p.pos(l), "every actor of the object is tested (loop left early only by failing)", why)
 		}
 		for _, c := range findCalls(E, fn, "Transport.Dereference") {
-			tot, why := totalLoop(loopBlocks(c.Block()), failureReturnPred(ff))
+			tot, why := totalLoopFF(ff, loopBlocks(c.Block()))
 			res.check(tot, "C06-R4", fname(fn), p.pos(c), "every undone object is fetched and tested (loop left early only by failing)", why)
 		}
 	}
@@ -339,7 +339,7 @@ func checkC06(res *Result) {
 			if len(bl) == 1 {
 				res.check(anyBackward(g, bl[0].Common().Args[1], func(x ssa.Value) bool { return x == ci.(ssa.Value) }), "C06-R5", fname(fn), p.pos(ci), "the collected ids are what Blocked receives", "no flow from this append to Blocked's argument")
 			}
-			tot, why := totalLoop(loopBlocks(ci.Block()), failureReturnPred(ff))
+			tot, why := totalLoopFF(ff, loopBlocks(ci.Block()))
 			res.check(tot, "C06-R5", fname(fn), p.pos(ci), "every actor is collected (loop left early only by failing)", why)
 		}
 		res.check(nApp >= 2, "C06-R5", fname(fn), p.pos(fn), "both spellings of an actor (IRI, embedded object) are collected", fmt.Sprintf("%d append sites", nApp))
